@@ -304,6 +304,65 @@ GAP_EXAMPLES = ['C[C@H]1CC[C@@H](C)CC1', 'C[C@H]1CC[C@H](C)CC1', 'O[C@H]1CC[C@@H
                 'C12C3C1C1C2C31', 'C12C3C4C1C5C2C3C45', 'CC12C3C1C1C2C31']
 
 
+# labelled tetrahedral centres that carry an explicit hydrogen ATOM (isotope labelled [2H] / [3H] or a plain [H] that was not made
+# implicit): four LISTED neighbours and no implicit hydrogen, so none of the writer's / registry's implicit-hydrogen rules may fire
+# although a hydrogen is attached.  Generated: centre element, three different substituents, kind of hydrogen, position of the hydrogen
+# in the spelling and the mark are drawn independently; plus members with two centres, ring centres, a second ordinary [C@H] centre
+H_CENTRE_FIXED = [
+    '[2H][C@](C)(O)[C@@]([2H])(C)N', 'C[C@H](O)[C@]([2H])(F)CC', '[2H][C@]1(C)CCCO1', '[2H][C@@]1(F)CC[C@H](C)CC1', 'C[C@]([2H])(N)C(=O)O',
+    '[2H][C@](C)(O)/C=C/C', '[2H][C@@](c1ccccc1)(C)N.[Cl-].[Na+]', '[3H][C@](C)(CC)[13CH3]', '[H][C@](F)(Cl)Br', '[2H][C@](C)(F)CC[C@@]([2H])(C)Cl',
+]
+
+
+def explicit_h_centres(rng, count):
+    subs = ['F', 'Cl', 'Br', 'I', 'C', 'CC', 'O', 'N', 'C#N', 'C=O', 'OC', 'S', 'c1ccccc1', 'C(F)(F)F', '[13CH3]', 'C(=O)O', 'CCl', 'C1CC1']
+    out = list(H_CENTRE_FIXED)
+    while len(out) < count:
+        lig = rng.sample(subs, 3)
+        lig.insert(rng.randrange(4), rng.choice(['[2H]', '[2H]', '[3H]', '[H]']))
+        centre = rng.choice(['C', 'C', 'C', 'C', 'Si'])
+        a, b_, c, d = lig
+        smi = f'{a}[{centre}{rng.choice(["@", "@@"])}]({b_})({c}){d}'
+        if smi not in out:
+            out.append(smi)
+    return out
+
+
+def rooted_spelling(m, root, rng):
+    """a non-canonical SMILES written by the library's own writer whose FIRST atom is `root` (the code path of format(m, 'r'): the
+    traversal is driven by arbitrary weights, here fixed ones that put `root` first, every other atom at random)"""
+    w = {n: 1. + rng.random() for n in m._atoms}
+    w[root] = 0.
+    toks, order = m._smiles(w.__getitem__, _return_order=True, random=True)
+    cx = m._format_cxsmiles(order)
+    return ''.join(toks) + ('' if cx is None else ' ' + cx), order
+
+
+def rdkit_stereo_count(rd):
+    from rdkit import Chem
+    return sum(1 for a in rd.GetAtoms() if a.GetChiralTag() != Chem.ChiralType.CHI_UNSPECIFIED) + \
+        sum(1 for x in rd.GetBonds() if x.GetStereo() not in (Chem.BondStereo.STEREONONE, Chem.BondStereo.STEREOANY))
+
+
+def rdkit_judge(a, c):
+    """are the SMILES a and c spellings of one labelled structure for RDKit?  True / False / None (not judged).  False only when RDKit
+    reads both, sees the same constitution and the same number of specified stereo elements in both, and both its canonical isomeric
+    SMILES and its chirality-aware graph matching (both directions) tell the two apart"""
+    from rdkit import Chem
+    ra, rc = Chem.MolFromSmiles(a), Chem.MolFromSmiles(c)
+    if ra is None or rc is None or ra.GetNumAtoms() != rc.GetNumAtoms():
+        return None
+    if Chem.MolToSmiles(ra, isomericSmiles=False) != Chem.MolToSmiles(rc, isomericSmiles=False):
+        return None
+    if rdkit_stereo_count(ra) != rdkit_stereo_count(rc):
+        return None
+    if Chem.MolToSmiles(ra) == Chem.MolToSmiles(rc):
+        return True
+    if ra.HasSubstructMatch(rc, useChirality=True) and rc.HasSubstructMatch(ra, useChirality=True):
+        return True
+    return False
+
+
 BOND_TIE_KEY = 'canon-differs:bond-order-tie'
 BOND_TIE_REPLAY = ("from chython import smiles; a=smiles('C1=CC=C1'); b=smiles('C=1C=CC=1'); print(str(a), str(b), a == b, hash(a) == hash(b))")
 
@@ -468,7 +527,60 @@ class Searcher:
                                   'increasing weight', {'smiles': smi, 'stereo_weights': stereo, 'weights': dict(w)}, got, exp,
                                   'own reference DFS', replay_py=f"from chython import smiles; m=smiles({smi!r}); print(m.smiles_atoms_order, m._chiral_morgan)")
 
-    def one(self, smi, rng, n_renum=2, n_spell=2, n_rdkit=2, heavy=True):
+    def written_oracle(self, smi, m, rng, n_root=3):
+        """(1) smiles(str(m)) is m; (2) spellings of the library's writer that START at a labelled stereo atom (each of the first
+        n_root centres, atoms with and without implicit / explicit hydrogen alike; one more starts at an atom next to a centre) read
+        back as m; (3) RDKit judges str(m) and every such spelling against the input string"""
+        from chython import smiles
+        ck = self.ck
+        gaps = gap_classes(m)
+        centres = [n for n, a in m.atoms() if a.stereo is not None]
+        written = [('canonical', str(m), None)]
+        if len(m) <= 60:
+            roots = centres[:n_root]
+            if centres:
+                nb = [x for x in m._bonds[centres[-1]]]
+                if nb:
+                    roots.append(rng.choice(nb))
+            for r in roots:
+                try:
+                    sp, order = rooted_spelling(m, r, rng)
+                except Exception as e:
+                    ck.counterexample(f'rooted-writer-raises:{smi}', f'the writer raises {type(e).__name__} when the traversal starts at atom {r}',
+                                      {'smiles': smi, 'root': r}, repr(e), 'a string', 'writer is total on molecules it can write canonically')
+                    continue
+                if order[0] != r:
+                    ck.unchecked('rooted spellings', f'{smi}: the traversal did not start at the atom of smallest weight ({r}), got {order[0]}')
+                    continue
+                a = m._atoms[r]
+                ck.count('search:rooted-spelling:' + ('not-a-centre' if a.stereo is None else
+                                                      'centre-implicit-H' if a.implicit_hydrogens else
+                                                      'centre-explicit-H' if any(m._atoms[x].atomic_number == 1 for x in m._bonds[r]) else
+                                                      'centre-allene' if len(m._bonds[r]) == 2 else 'centre-4-heavy'))
+                written.append(('rooted', sp, r))
+        judged = not gaps and bool(n_stereo(m))
+        for how, sp, root in written:
+            try:
+                back = smiles(sp)
+            except Exception as e:
+                ck.counterexample(f'written-unreadable:{smi}', 'a SMILES written by the library is not readable by the library',
+                                  {'smiles': smi, 'written': sp, 'how': how}, repr(e), 'a molecule', 'reader')
+                continue
+            self.compare('reread-' + how, smi, m, back, {'written': sp, 'first_atom': root},
+                         f"from chython import smiles; print(str(smiles({smi!r}))); print(str(smiles({sp!r})))")
+            if judged:
+                v = rdkit_judge(smi, sp)
+                ck.count(f'search:rdkit-judge-written:{how}:' + {None: 'not-judged', True: 'same', False: 'DIFFERENT'}[v])
+                if v is False:
+                    ck.counterexample(f'written-other-structure:{how}:{smi}', 'the library writes a SMILES that is a spelling of ANOTHER stereoisomer '
+                                      'of the molecule it was written for (judged by RDKit on the input string and the written string)',
+                                      {'smiles': smi, 'how': how, 'first_atom': root}, sp, 'a spelling of the input structure',
+                                      'RDKit: equal constitution, equal number of stereo labels, canonical isomeric SMILES and chirality-aware '
+                                      'graph matching both tell the two apart',
+                                      replay_py=f"from chython import smiles; from rdkit import Chem; m=smiles({smi!r}); print(str(m)); "
+                                                f"print(Chem.MolToSmiles(Chem.MolFromSmiles({smi!r})), Chem.MolToSmiles(Chem.MolFromSmiles({sp!r})))")
+
+    def one(self, smi, rng, n_renum=2, n_spell=2, n_rdkit=2, heavy=True, n_root=3):
         from chython import smiles
         from rdkit import Chem
         ck = self.ck
@@ -494,6 +606,10 @@ class Searcher:
                          f"from chython import smiles; m=smiles({smi!r}); a=str(m); m.remap({f!r}); print(a); print(str(m))")
         if not heavy:
             return
+        # ---- (a') what the library WRITES for the molecule is a spelling of the structure that was read: the canonical string is a
+        #      fixed point of reading, every labelled centre is written once as the FIRST atom of the string, and RDKit (which never
+        #      sees a chython object) must find the input and every written string to be one labelled structure
+        self.written_oracle(smi, m, rng, n_root)
         # ---- (b) rebuilt from scratch in another insertion order (Kekule form, then aromatised again)
         k = m.copy()
         arom = any(int(bd) == 4 for *_, bd in k.bonds())
@@ -720,6 +836,9 @@ def search(ck, seeds=None):
         S.one(smi, rng, n_renum=3, n_spell=2, n_rdkit=1)
     for smi in ALLENES:
         S.one(smi, rng, n_renum=4, n_spell=12, n_rdkit=1)
+    # labelled centres with an explicit hydrogen atom (generated family): every centre written first, several random spellings
+    for smi in explicit_h_centres(random.Random(f'{ck.seed}:c01-hcentres'), 34 if quick else 300):
+        S.one(smi, rng, n_renum=2, n_spell=4, n_rdkit=2, n_root=4)
     search_allenes(ck)
     # the oracle must recognise the documented gap members, and must not call ordinary molecules gaps
     from chython import smiles
@@ -1377,7 +1496,9 @@ def correspondence(ck):
     ucases, umeta = [], []
     suspects = []
     n_writer = 0
-    pool = SPECIAL + GAP_EXAMPLES + LONG + ALLENES[:4] + COORD + CHARGE_TIE + corpus.sample(corpus.lipo(), 100 if quick else 500, ck.seed, 'c01-corr')
+    # labelled centres with an explicit hydrogen atom come first: the whole-string writer cases below are capped
+    hc = explicit_h_centres(random.Random(f'{ck.seed}:c01-hcentres-corr'), 22 if quick else 80)
+    pool = hc + SPECIAL + GAP_EXAMPLES + LONG + ALLENES[:4] + COORD + CHARGE_TIE + corpus.sample(corpus.lipo(), 100 if quick else 500, ck.seed, 'c01-corr')
     mols = []
     for smi in pool:
         try:
@@ -1428,8 +1549,10 @@ def correspondence(ck):
                     ck.case(('corr-wk', smi, how, tuple(order[:2])), nontrivial=len(v) > 2)
                     ck.count('corr:writer-keys')
             # the whole writer model (canonical string + order) on small molecules
-            if 0 < len(m) <= 24 and n_writer < (60 if quick else 250):
+            if 0 < len(m) <= 24 and n_writer < (80 if quick else 330):
                 n_writer += 1
+                if any(a.stereo is not None and not a.implicit_hydrogens and any(m._atoms[x].atomic_number == 1 for x in m._bonds[n]) for n, a in m.atoms()):
+                    ck.count('corr:writer-full:centre-with-explicit-H' + (':written-first' if m._atoms[m.smiles_atoms_order[0]].stereo is not None else ''))
                 for how, v in variants[:2]:
                     order = list(v.smiles_atoms_order)
                     cases.append(f'wr_ok {mol_term(v)} {zmap(v._chiral_morgan)} {zmap({n: i for i, n in enumerate(order)})} {tabs_term(v)} '
@@ -1440,7 +1563,7 @@ def correspondence(ck):
             ck.count(f'corr:mol:atoms<={min(90, -(-len(m) // 10) * 10)}')
             ck.count('corr:mol:classes-discrete' if len(set(m.atoms_order.values())) == len(m) else 'corr:mol:classes-tied')
     # _chiral_morgan / __differentiation: stereo molecules as read and renumbered, weights and `_morgan` inputs call by call
-    cpool = STEREO_TIES + GAP_EXAMPLES + ALLENES + [x for x in SPECIAL if '@' in x or '/' in x or '\\' in x] + \
+    cpool = hc[:12] + STEREO_TIES + GAP_EXAMPLES + ALLENES + [x for x in SPECIAL if '@' in x or '/' in x or '\\' in x] + \
         corpus.sample(corpus.stereo_smiles(), 70 if quick else 500, ck.seed, 'c01-chiral')
     with ChiralSpy() as cspy:
         for smi in cpool:
